@@ -39,6 +39,7 @@ def background(formulas):
     ax += prelude.class_consts_axioms()
     if uses(formulas, {'desc', 'subs_len', 'subs_arr'}):
         ax += prelude.hierarchy_axioms()
+    ax += prelude.idxof_axioms(formulas)
     import sys
     th = sys.modules.get('pyvc.theory')
     if th is not None:
